@@ -231,7 +231,11 @@ def check(inp):
             y["attrs"] = attrs
         if fattrs:
             y["fattrs"] = fattrs
-        return compare(run(wrap_container(cont, [fdecl(decl)])), run(wrap_container(cont, [y])),
+        x = fdecl(decl)
+        if inp.get("generic"):
+            x["fortran_generic"] = [{"decl": g} for g in inp["generic"]]
+            y["fortran_generic"] = [{"decl": g} for g in inp["generic"]]
+        return compare(run(wrap_container(cont, [x])), run(wrap_container(cont, [y])),
                        "inline attributes of %r vs attrs %s / fattrs %s in %s" % (decl, attrs, fattrs, cont))
     return None
 
@@ -261,6 +265,11 @@ def candidates(seed, around=None):
             yield {"kind": "scope", "container": cont, "funcs": fs[:3], "custom": cu, "place": "container", "inside": 3}
     for cu in CUSTOM + INST_CUSTOM:
         yield {"kind": "inst", "funcs": [f for f in FUNCS][:3], "custom": cu}
+    # the generic variants of a function see the attributes of its other arguments, however they were given
+    yield {"kind": "attrs", "container": "library", "decl": "void scale(double *v +intent(inout)+rank(1), int n +implied(size(v)))",
+           "generic": ["(float *v +rank(1))", "(double *v +rank(1))"]}
+    yield {"kind": "attrs", "container": "class", "decl": "void scale(double *v +intent(inout)+rank(1), int n +implied(size(v)))",
+           "generic": ["(float *v +rank(1))", "(double *v +rank(1))"]}
     for d in ATTR_DECLS:
         ctor = d.startswith(("Box", "~Box"))
         for cont in (["class"] if ctor else ["library", "class", "template"]):
